@@ -7,6 +7,7 @@ pub mod textops;
 pub mod store;
 pub mod data;
 pub mod serial;
+pub mod validation;
 
 pub fn run(family: &str, opts: &Opts) -> Option<Report> {
     // "family@m<interval>s<0|1>" runs the family under a store configuration variant
@@ -36,6 +37,7 @@ fn run_base(family: &str, opts: &Opts) -> Option<Report> {
         "store" => Some(store::run(opts)),
         "data" => Some(data::run(opts)),
         "serial" => Some(serial::run(opts)),
+        "validation" => Some(validation::run(opts)),
         _ => None,
     }
 }
